@@ -4,20 +4,22 @@ import ast
 from .common import *
 
 EXPLANATION = (
-    "Decided, by extracting the decision table of Valve.update (branch "
-    "guard -> attribute stores with their value sources) and its CFG: "
-    "(R27.1) every path through update() stores coil; the decision is a "
-    "three-way if/elif/else with no condition on the last branch (the "
-    "safe-state reaction cannot be skipped, e.g. by an already set error "
-    "flag); (R27.2) branches that do not set error store coil from target, "
-    "and only the branch guarded by 'in position and correct' refreshes "
-    "lastGood; (R27.3) the branch that sets error stores coil and target "
-    "from the configured safeState (the attribute, not a literal) and is "
-    "reached only when `monotonic() - lastGood < movingTime` is false; "
-    "(R27.4) reset() clears error and refreshes lastGood; (R27.5) the "
-    "switch variables the decision compares are read as bools on the slow "
-    "path (shared with C19 R19.2), so `open != closed` compares truth "
-    "values. Declined: histories.")
+    "Decided, by abstract execution (sa/evalx.py) of Valve.update and "
+    "Valve.reset - helper methods included - on an abstract Valve whose "
+    "attributes range over their whole finite domain: open/closed switch, "
+    "coil, target, error, safeState (and any further state attribute the "
+    "methods read) x elapsed time within / after movingTime: (R27.2) "
+    "lastGood is refreshed exactly when the switches confirm the coil; "
+    "confirmed or within movingTime the coil ends equal to the target and "
+    "target/error are untouched; (R27.1/R27.3) otherwise coil and target "
+    "end equal to the configured safeState (both settings tabulated) and "
+    "error is set; safeState and movingTime are class attributes; (R27.4) "
+    "reset() clears the error and restarts the timer whatever the state, "
+    "lastGood has no class-level default; (R27.5) switch variables are "
+    "read as bools and (R19.4, shared with C19) accessors read and write "
+    "the group's current frame on every access. The domain is enumerated "
+    "completely; the shape of the methods does not matter. Declined: "
+    "histories.")
 ASSUMPTIONS = ["monotonic() is the clock the timeout is measured with"]
 
 V = "ebpfcat.devices.Valve"
